@@ -32,6 +32,10 @@ Fixpoint count_go (sub l : list N) (skip : nat) : nat :=
               end
   end.
 
+(* strings.HasSuffix(l, p) *)
+Definition is_suffix (p l : list N) : bool :=
+  (length p <=? length l)%nat && is_prefix p (skipn (length l - length p) l).
+
 Open Scope Z_scope.
 
 (* start and end "interpreted as in slice notation" *)
@@ -74,6 +78,15 @@ Definition startswith_model (bs sub : list N) (beg end_ : Z) : bool :=
   if (b >? size) || (e <? b) then false
   else is_prefix sub (str_slice bs (Z.to_nat b) (Z.to_nat e) n).
 
+(* String.window + strings.HasSuffix: s.endswith(sub, beg, end) *)
+Definition endswith_model (bs sub : list N) (beg end_ : Z) : bool :=
+  let n := rune_count bs in
+  let size := Z.of_nat n in
+  let e := clip_end end_ size in
+  let b := clip_beg beg size in
+  if (b >? size) || (e <? b) then false
+  else is_suffix sub (str_slice bs (Z.to_nat b) (Z.to_nat e) n).
+
 (* ---- Python's rule, over code points ---- *)
 Definition window (s : list N) (b e : Z) : list N := firstn (Z.to_nat e - Z.to_nat b) (skipn (Z.to_nat b) s).
 
@@ -104,3 +117,9 @@ Definition cp_count (s sub : list N) (beg end_ : Z) : Z :=
   | [] => Z.of_nat (length (window s b e)) + 1
   | _ => Z.of_nat (count_go sub (window s b e) 0)
   end.
+
+Definition cp_endswith (s sub : list N) (beg end_ : Z) : bool :=
+  let size := Z.of_nat (length s) in
+  let e := clip_end end_ size in
+  let b := clip_beg beg size in
+  if (b >? size) || (e <? b) then false else is_suffix sub (window s b e).
